@@ -31,11 +31,27 @@ def scratch_copy():
 def run(prop, mod, C):
     patches = sorted(glob.glob(os.path.join(VERIF, "selftest", "mutants", prop + "-*.patch")))
     patches += sorted(glob.glob(os.path.join(VERIF, "selftest", "neutral", prop + "-*.patch")))
+    # independently seeded changes (sub-agents, see DESIGN 4.2) that this property's check must report
+    seeded = {}
+    import json as _json
+    for mp in sorted(glob.glob(os.path.join(VERIF, "seeded", "*", "meta.json"))):
+        try:
+            m = _json.load(open(mp))
+        except Exception:
+            continue
+        keys = [k for k in m.get("caught_by", []) if k.startswith(prop + "/")]
+        pd = os.path.join(os.path.dirname(mp), "patch.diff")
+        if keys and os.path.exists(pd):
+            seeded[pd] = keys[0]
+            patches.append(pd)
     results = []
     failures = []
     for p in patches:
         name = os.path.basename(p)[:-6]
         expect = None
+        if p in seeded:
+            name = "seeded/" + os.path.basename(os.path.dirname(p))
+            expect = seeded[p]
         for line in open(p):
             if line.startswith("# expect:"):
                 expect = line.split(":", 1)[1].strip()
